@@ -44,16 +44,24 @@ def strip_last_section(path, fmt, cut_in_key=False):
         lines = data.decode().split("\n")
         i = next(k for k, x in enumerate(lines) if x.strip() == "last_samples")
         j = next(k for k in range(i, len(lines)) if lines[k].strip() == "}")
-        out = "\n".join(lines[:i] + lines[j:]).encode()
+        # (states that have the sections announce them with "sharedData on" among the state parameters: an older state does not)
+        out = "\n".join(x for x in lines[:i] + lines[j:] if x.strip() != "sharedData on").encode()
     else:
         i = data.index(b"last_samples")
         out = data[:i + 3] if cut_in_key else data[:i - 8]
+        kw = b"sharedData on\n"
+        if not cut_in_key and kw in out:
+            # the state parameters are a string with an 8-byte length in front of it, after the keyword "configuration" of the block
+            k = out.index(kw)
+            c = out.rindex(b"configuration", 0, k) + len(b"configuration")
+            n = int.from_bytes(out[c:c + 8], "little")
+            out = out[:c] + (n - len(kw)).to_bytes(8, "little") + out[c + 8:k] + out[k + len(kw):]
     atomic_write(path, out)
 
 
 def abf_setup(case, first=True):
     L = ["natoms %d" % case["nd"], "samestep 1", "includecv 1"] + (["smp perm 2"] if case.get("smp") else []) + \
-        ["new", "config EOF"] + abf_conf(case) + \
+        ["new"] + (["setstep %d" % case["step0"]] if case.get("step0") else []) + ["config EOF"] + abf_conf(case) + \
         (["harmonic {", "  name h", "  colvars v0", "  centers 0", "  forceConstant 0.0", "}"] if case.get("smp") else []) + ["EOF",
          "show cv 0 energy 0 bias 0 atomf 0"] + (["outprefix out"] if case.get("output") else [])
     return L
@@ -93,6 +101,16 @@ def step_lines(case, bins, forces, frac=0.5):
     return L
 
 
+def save_cmd(fmt, name):
+    """fmt: text | binary (state file read through the input prefix), str (formatted state handed over as a string),
+    buf (unformatted state handed over in a memory buffer, as engines with their own checkpoints do)"""
+    return "save %s %s" % ({"str": "text", "buf": "binary"}.get(fmt, fmt), name)
+
+
+def load_cmd(fmt, name):
+    return "%s %s" % ({"str": "loadstr", "buf": "loadbuf"}.get(fmt, "load"), name)
+
+
 def run_abf(exe, case, scratch, timeout=30.0):
     """Events (see gen_abf): ["s", w, bins, forces] one engine step of walker w; ["r", w, fmt] restart of
     walker w through a state file.  Returns a list, one entry per event, of (w, err, dump) for "s" and
@@ -106,13 +124,14 @@ def run_abf(exe, case, scratch, timeout=30.0):
         os.makedirs(d)
         dirs.append(d)
     F = case["freq"]
+    S0 = case.get("step0", 0)
     out = [None] * len(case["events"])
     with W.Team(exe, n, dirs, timeout_ms=4000) as T:
         for r in T.all_do(lambda i: abf_setup(case), timeout):
             if not any(x.startswith("CONFIG err=ok") for x in r):
                 raise W.WalkerTimeout("configuration failed: %s" % r)
         t = [None] * n          # step number of the last completed/issued step (None = none yet)
-        last = [0] * n          # shared_last_step as the walker holds it
+        last = [S0] * n         # shared_last_step as the walker holds it
         first = [True] * n      # next step is the first of a run (repeats the step number)
         pending = {}            # walker -> (event index, token)
         for k, ev in enumerate(case["events"]):
@@ -120,7 +139,7 @@ def run_abf(exe, case, scratch, timeout=30.0):
             if w in pending:
                 raise ValueError("schedule advances walker %d while it is blocked in an exchange" % w)
             if ev[0] == "s":
-                nt = (t[w] if t[w] is not None else 0) if first[w] else t[w] + 1
+                nt = (t[w] if t[w] is not None else S0) if first[w] else t[w] + 1
                 first[w] = False
                 t[w] = nt
                 exch = F > 0 and nt > last[w] and nt % F == 0
@@ -154,7 +173,12 @@ def run_abf(exe, case, scratch, timeout=30.0):
                 r += T.walkers[w].do(abf_setup(case) + ["load st%d" % k, "dumpshared a"], timeout)
                 out[k] = (w, [x for x in r if x.startswith(("SAVE", "LOAD", "CONFIG"))], parse_shared(r))
                 first[w] = True
-                last[w] = t[w] if t[w] is not None else 0
+                last[w] = t[w] if t[w] is not None else S0
+            elif ev[0] == "c":
+                # a configuration that is refused, in the middle of the session (a second ABF bias on a variable that does not exist,
+                # with sharing on): nothing of the running bias may change
+                r = T.walkers[w].do(["config EOF", "abf {", "  name bad", "  colvars nosuch", "  shared on", "  sharedFreq 1", "}", "EOF", "dumpshared a"], timeout)
+                out[k] = (w, [x for x in r if x.startswith("CONFIG")], parse_shared(r))
             elif ev[0] == "o":
                 # end-of-run output of walker w (write_output_files: .count/.grad/.pmf of the local and, on replica 0, of the
                 # shared grids); changes nothing in the grids
@@ -162,14 +186,76 @@ def run_abf(exe, case, scratch, timeout=30.0):
                 out[k] = (w, [x for x in r if x.startswith("POSTRUN")], parse_shared(r))
             elif ev[0] == "r":
                 fmt = ev[2]
-                r = T.walkers[w].do(["save %s st%d" % (fmt, k)] + abf_setup(case) + ["load st%d" % k, "dumpshared a"], timeout)
+                r = T.walkers[w].do([save_cmd(fmt, "st%d" % k)] + abf_setup(case) + [load_cmd(fmt, "st%d" % k), "dumpshared a"], timeout)
                 out[k] = (w, [x for x in r if x.startswith(("SAVE", "LOAD", "CONFIG"))], parse_shared(r))
                 first[w] = True
-                last[w] = t[w] if t[w] is not None else 0
+                last[w] = t[w] if t[w] is not None else S0
         if pending:
             raise W.WalkerTimeout("schedule ends with walkers %s blocked in an exchange" % sorted(pending))
         stats = T.all_do(["repstat"], timeout)
     return out, stats
+
+
+def run_death(exe, case, scratch, timeout=20.0):
+    """Shared ABF, all walkers in lockstep; in the exchange round of step case["T"] walker case["victim"] dies at its
+    (case["die_after"]+1)-th replica call (vsim "repdie").  Returns {w: (STEP lines, dump)} of the survivors after that step
+    and the dumps of all walkers before it."""
+    n = case["n"]
+    dirs = []
+    for i in range(n):
+        d = os.path.join(scratch, "x%d" % i)
+        shutil.rmtree(d, ignore_errors=True)
+        os.makedirs(d)
+        dirs.append(d)
+    with W.Team(exe, n, dirs, timeout_ms=case.get("timeout_ms", 400)) as T:
+        for r in T.all_do(lambda i: abf_setup(case), timeout):
+            if not any(x.startswith("CONFIG err=ok") for x in r):
+                raise W.WalkerTimeout("configuration failed: %s" % r)
+        for t in range(case["T"]):
+            T.all_do(lambda i: step_lines(case, [case["steps"][t][i][0]], [case["steps"][t][i][1]]), timeout)
+        before = [parse_shared(r) for r in T.all_do(["dumpshared a"], timeout)]
+        T.walkers[case["victim"]].do(["repdie %d" % case["die_after"]], timeout)
+        t = case["T"]
+        toks = [T.walkers[i].send(step_lines(case, [case["steps"][t][i][0]], [case["steps"][t][i][1]])) for i in range(n)]
+        after = {}
+        for i in range(n):
+            if i == case["victim"]:
+                continue
+            r = T.walkers[i].collect(toks[i], timeout)
+            after[i] = ([x for x in r if x.startswith("STEP")], parse_shared(r))
+    return before, after
+
+
+def run_odeath(exe, case, scratch, timeout=20.0):
+    """OPES with multiple walkers in lockstep; in the deposition round of step case["T"] walker case["victim"] ends at its
+    (case["die_after"]+1)-th replica call.  Returns the dumps of all walkers before that step and of the survivors after it."""
+    n = case["n"]
+    dirs = []
+    for i in range(n):
+        d = os.path.join(scratch, "y%d" % i)
+        shutil.rmtree(d, ignore_errors=True)
+        os.makedirs(d)
+        dirs.append(d)
+    with W.Team(exe, n, dirs, timeout_ms=case.get("timeout_ms", 400)) as T:
+        setup = ["natoms 1", "samestep 1", "temperature 300", "dt 1", "restartfreq 1000", "new", "config EOF"] + opes_conf(case) + \
+                ["EOF", "show cv 0 energy 0 bias 0 atomf 0"]
+        for r in T.all_do(setup, timeout):
+            if not any(x.startswith("CONFIG err=ok") for x in r):
+                raise W.WalkerTimeout("configuration failed: %s" % r)
+        out = None
+        for t in range(case["T"]):
+            out = T.all_do(lambda i: ["pos 1 0 0 %s" % float(case["steps"][t][i]).hex(), "step", "dumpopes o"], timeout)
+        before = [parse_opes(r) for r in out]
+        T.walkers[case["victim"]].do(["repdie %d" % case["die_after"]], timeout)
+        t = case["T"]
+        toks = [T.walkers[i].send(["pos 1 0 0 %s" % float(case["steps"][t][i]).hex(), "step", "dumpopes o"]) for i in range(n)]
+        after = {}
+        for i in range(n):
+            if i == case["victim"]:
+                continue
+            r = T.walkers[i].collect(toks[i], timeout)
+            after[i] = ([x for x in r if x.startswith("STEP")], parse_opes(r))
+    return before, after
 
 
 # ------------------------------------------------------------------------------------------
@@ -184,10 +270,17 @@ def rid(case, w):
     return ("%d" % w) if case.get("idfromcomm") else ("w%d" % w)
 
 
-def meta_conf(case, rid, registry):
+def meta_conf(case, rid, registry, second=False):
+    """second: the configuration of a job that continues from a state file; with case["conf2"] it legally differs from the
+    one that wrote the state (hill frequency, exchange frequency, hill width)"""
+    if second and case.get("conf2"):
+        case = dict(case, hillfreq=case["conf2"]["hillfreq"], upfreq=case["conf2"]["upfreq"])
+        sigma = SIGMA * 2
+    else:
+        sigma = SIGMA
     return ["colvar {", "  name v0", "  lowerBoundary 0", "  upperBoundary %d" % case["nbins"], "  width 1",
             "  distanceZ {", "    main { atomNumbers 1 }", "    ref { dummyAtom (0,0,0) }", "    axis (0,0,1)", "  }", "}",
-            "metadynamics {", "  name m", "  colvars v0", "  hillWeight 1", "  gaussianSigmas %r" % SIGMA,
+            "metadynamics {", "  name m", "  colvars v0", "  hillWeight 1", "  gaussianSigmas %r" % sigma,
             "  newHillFrequency %d" % case["hillfreq"]] + (["  useGrids on", "  writeFreeEnergyFile off"] if case.get("grids", True) else ["  useGrids off"]) + [
           ] + (["  stepZeroData on"] if case.get("szd") else []) + [
             "  multipleReplicas on"] + ([] if case.get("idfromcomm") else ["  replicaID %s" % rid]) + ["  replicasRegistry %s" % registry,
@@ -195,7 +288,8 @@ def meta_conf(case, rid, registry):
 
 
 def meta_setup(case, rid, registry, prefix, restartfreq, load=None):
-    L = ["natoms 1", "restartfreq %d" % restartfreq, "prefix", "new", "config EOF"] + meta_conf(case, rid, registry) + ["EOF",
+    L = ["natoms 1", "restartfreq %d" % restartfreq, "prefix", "new"] + (["setstep %d" % case["step0"]] if case.get("step0") and not load else []) + \
+        ["config EOF"] + meta_conf(case, rid, registry, second=bool(load)) + ["EOF",
          "show cv 0 energy 0 bias 0 atomf 0"]
     if load:
         L += ["load %s" % load]
@@ -555,13 +649,14 @@ def run_czar(exe, case, scratch, timeout=30.0):
         # ABF and CZAR gradient sums stay zero
         setup = ["natoms 1", "samestep 0", "temperature 300", "dt 1", "new", "config EOF"] + czar_conf(case) + \
                 ["EOF", "outprefix out", "show cv 0 energy 0 bias 0 atomf 0"]
+        cur_freq = case["freq"]
         for r in T.all_do(setup, timeout):
             if not any(x.startswith("CONFIG err=ok") for x in r):
                 raise W.WalkerTimeout("configuration failed: %s" % r)
         for t, row in enumerate(case["steps"]):
             T.all_do(lambda i: ["pos 1 0 0 %s" % float(row[i][0] + row[i][1]).hex(),
                                 "eforce 1 0 0 %s" % float(row[i][2]).hex(), "step"], timeout)
-            if case.get("script") and (t + 1) % case["freq"] == 0:
+            if case.get("script") and (t + 1) % cur_freq == 0:
                 # sharing switched on (and performed) by the script command, on all walkers together
                 T.all_do(["script cv bias a share"], timeout)
             if t in case["gather_at"]:
@@ -577,7 +672,13 @@ def run_czar(exe, case, scratch, timeout=30.0):
             if fmts:
                 # the job ends here and is started again: every walker goes through its state file (walker w in format fmts[w])
                 bs = [parse_shared(r) for r in T.all_do(["dumpshared a"], timeout)]
-                rs = T.all_do(lambda i: ["save %s zst%d" % (fmts[i], t)] + setup + ["load zst%d" % t, "dumpshared a"], timeout)
+                if case.get("freq2"):
+                    # the new job is configured with another exchange (and output) frequency: legal, the state does not carry it
+                    cur_freq = case["freq2"]
+                    setup = [x for x in setup if x not in czar_conf(case)]
+                    k_ = setup.index("config EOF") + 1
+                    setup = setup[:k_] + czar_conf(dict(case, freq=cur_freq)) + setup[k_:]
+                rs = T.all_do(lambda i: [save_cmd(fmts[i], "zst%d" % t)] + setup + [load_cmd(fmts[i], "zst%d" % t), "dumpshared a"], timeout)
                 for w, (b, r) in enumerate(zip(bs, rs)):
                     restarts.append((t, w, fmts[w], b, parse_shared(r), [x for x in r if x.startswith(("SAVE", "LOAD", "CONFIG"))]))
         stats = T.all_do(["repstat"], timeout)
@@ -646,7 +747,7 @@ def run_opes(exe, case, scratch, timeout=30.0):
         # (smp: the engine's thread pool is on and a second bias is defined; a bias that talks to the other replicas must
         # then still be updated by the main thread)
         setup = ["natoms 1", "samestep 1", "temperature 300", "dt 1", "restartfreq 1000"] + (["smp perm 2"] if case.get("smp") else []) + \
-                ["new", "config EOF"] + opes_conf(case) + \
+                ["new"] + (["setstep %d" % case["step0"]] if case.get("step0") else []) + ["config EOF"] + opes_conf(case) + \
                 (["harmonic {", "  name h", "  colvars v0", "  centers 0", "  forceConstant 0.0", "}"] if case.get("smp") else []) + \
                 ["EOF", "show cv 0 energy 0 bias 0 atomf 0"]
         for r in T.all_do(setup, timeout):
